@@ -6,3 +6,8 @@ lake build Scale Proofs Props scale_model
 cd /verif/harness
 cp /repo/Cargo.lock Cargo.lock
 CARGO_NET_OFFLINE=true cargo build --release --offline
+# C10's Miri stage: build the interpreter's copy of the crate once (skipped silently if the
+# nightly Miri toolchain is not there; the check then notes it in the evidence)
+cd /verif/harness/miri
+cp /repo/Cargo.lock Cargo.lock
+CARGO_NET_OFFLINE=true cargo +nightly miri run --offline > /dev/null 2>&1 || true
